@@ -58,6 +58,7 @@ type Call struct {
 	Idx      int // per-instance call index, in issue order
 	Kind     OpKind
 	Key      string   // object key
+	NS       string   // object-store namespace of the calling instance ("" = the log's bucket)
 	LogID    [32]byte // lock key
 	Data     []byte
 	Old      []byte // Replace: expected old value
@@ -198,6 +199,28 @@ func (w *World) Delete(key string) {
 	w.Objs[key] = append(w.Objs[key], ObjVersion{Deleted: true, IssueSeq: w.seq, Seq: w.seq, By: "tamper"})
 }
 
+// CopyBucket copies the live objects of bucket from (a key prefix, "" = the
+// log's own bucket, which must not contain other buckets' keys with prefix
+// skip) into bucket to, as a backup/restore or bucket migration would.
+func (w *World) CopyBucket(from, to string, keep func(key string) bool) int {
+	w.mu.Lock()
+	defer w.mu.Unlock()
+	n := 0
+	for k := range w.Objs {
+		if !strings.HasPrefix(k, from) || (from == "" && strings.Contains(k, "!/")) {
+			continue
+		}
+		v := w.cur(k)
+		if v == nil || (keep != nil && !keep(k[len(from):])) {
+			continue
+		}
+		w.seq++
+		w.Objs[to+k[len(from):]] = append(w.Objs[to+k[len(from):]], ObjVersion{Data: v.Data, Opts: v.Opts, IssueSeq: w.seq, Seq: w.seq, DoneSeq: w.seq, By: "copy"})
+		n++
+	}
+	return n
+}
+
 func (w *World) Versions(key string) []ObjVersion {
 	w.mu.Lock()
 	defer w.mu.Unlock()
@@ -252,6 +275,9 @@ type Inst struct {
 	// faults on a loaded machine.
 	HonorCtx bool
 	cache    string // private cache path override (LogEnv.LoadCache)
+	// NS is prefixed to every object key of this instance: a second bucket
+	// (misconfigured or restored object storage) next to the shared lock store.
+	NS string
 }
 
 func NewInst(w *World, name string) *Inst {
@@ -413,7 +439,8 @@ type ObjBackend struct {
 }
 
 func (b *ObjBackend) Upload(ctx context.Context, key string, data []byte, opts *ctlog.UploadOptions) error {
-	c := &Call{Kind: OpUpload, Key: key, Data: bytes.Clone(data)}
+	c := &Call{Kind: OpUpload, Key: key, NS: b.In.NS, Data: bytes.Clone(data)}
+	key = b.In.NS + key
 	if opts != nil {
 		c.Opts = *opts
 	}
@@ -457,7 +484,8 @@ func (b *ObjBackend) Upload(ctx context.Context, key string, data []byte, opts *
 }
 
 func (b *ObjBackend) Fetch(ctx context.Context, key string) ([]byte, error) {
-	c := &Call{Kind: OpFetch, Key: key}
+	c := &Call{Kind: OpFetch, Key: key, NS: b.In.NS}
+	key = b.In.NS + key
 	d := b.In.begin(c)
 	w := b.In.W
 	w.mu.Lock()
@@ -486,7 +514,8 @@ func (b *ObjBackend) Fetch(ctx context.Context, key string) ([]byte, error) {
 }
 
 func (b *ObjBackend) Discard(ctx context.Context, key string) error {
-	c := &Call{Kind: OpDiscard, Key: key}
+	c := &Call{Kind: OpDiscard, Key: key, NS: b.In.NS}
+	key = b.In.NS + key
 	d := b.In.begin(c)
 	w := b.In.W
 	w.mu.Lock()
